@@ -1,5 +1,6 @@
 import Resolvo.Abs.Fail
 import Resolvo.Enc.ReferenceProofs
+import Resolvo.MDet.EncSound
 /-!
 # C02 — Unsolvable is reported only when no solution exists, and vice versa
 
@@ -19,6 +20,20 @@ Not proved (see DESIGN §6 C02(d)): that the search terminates with a verdict fo
 -/
 namespace Resolvo.C02
 open Resolvo Resolvo.Abs
+
+/-- **The encoder never rules out a solution** (exact model of `Solver::solve`, no checker in between; every universe meeting
+    the provider contract, every problem, fuel, solver state carried over from earlier solves, synchronous and asynchronous,
+    whatever the outcome): every valid selection of the hard problem satisfies — under the assignment it induces on the
+    model's variables — every requires, constrains, lock and exclusion clause the model holds after the solve, read the way
+    the model's own propagation reads them. An `Unsolvable` verdict can therefore not come from a wrong clause of the
+    encoder; what remains between this and `Unsolvable ⇒ ¬ Solvable` for the model itself is the CDCL core (unit
+    propagation, learnt clauses, the at-most-one encoding proved in `Enc/AtMostOneProofs.lean`), which the checked model
+    covers (`solveChecked_unsat_sound`). -/
+theorem encoder_never_excludes_a_solution (U : Universe) (hU : MDet.WFU U) (P : Problem) (fuel : Nat) (s0 : MDet.S)
+    (sel : List Nat) (hv : Valid U P.hard sel []) :
+    ∀ c ∈ (MDet.solveRun U P fuel s0).2.clauses.toList, MDet.encoded c.kind = true →
+      Sat.evalClause (MDet.muS (MDet.solveRun U P fuel s0).2 sel) (MDet.clauseLits (MDet.solveRun U P fuel s0).2 c) = true :=
+  MDet.encoder_sound U hU P fuel s0 sel hv
 
 /-- (a) certified Unsolvable -/
 theorem unsat_certified (U : Universe) (P : Problem) (history : List Event) (st : St)
